@@ -701,6 +701,10 @@ def bv_cmp(op, a, b):
         if a.has_top() or b.has_top():
             if a.same(b):
                 return BV.const(1, int(op == 'Eq'))
+            for x, y in zip(a.bits, b.bits):
+                if x in (0, 1) and y in (0, 1) and x != y:
+                    return BV.const(1, int(op == 'Ne'))
+            return BV.top(1)
         r = eq_bit(a.bits, b.bits)
         return BV(1, [r if op == 'Eq' else b_not(r)])
     if a.signed:
